@@ -105,6 +105,15 @@ def trace (cfg : Cfg) (M : Nat → Nat → S) (t : S) : Nat → St → List St
     | none => [cs]
     | some (m, cs') => if le m t then cs :: trace cfg M t n cs' else [cs]
 
+/-- decidable: `cs'` is `cs` with two distinct entries merged (tie (a) of C10 on observed traces) -/
+def isMergeb (cs cs' : St) : Bool :=
+  (List.range cs.length).any fun p => (List.range cs.length).any fun q => p != q && mergeAt cs p q == cs'
+
+def chainOkb : List St → Bool
+  | [] => true
+  | [_] => true
+  | a :: b :: rest => isMergeb a b && chainOkb (b :: rest)
+
 /-- `revert=True`: item ↦ key + 1 -/
 def revert (cs : St) : List (Nat × Nat) :=
   cs.flatMap fun c => c.2.map fun i => (i, c.1 + 1)
